@@ -28,14 +28,15 @@ Judge(k) ==
   /\ IsStep(k) =>
      /\ Report(k, "C07.AcceptedIsSound", (ln(k).ev = "Update" /\ ln(k).res = "ok") => Sound(Hd(ln(k).args.hd)))
      /\ Report(k, "C07.StoresExactly", (ln(k).ev = "Update" /\ ln(k).res = "ok") =>
-            LET hd == Hd(ln(k).args.hd) IN hd.height \in DOMAIN cons' /\ cons'[hd.height] = [time |-> hd.time, root |-> hd.root, next |-> hd.next]
-                                          /\ hd.height \in DOMAIN meta' /\ meta'[hd.height] = now)
-     /\ Report(k, "C07.LatestMonotone", latest' >= latest)
+            LET hd == Hd(ln(k).args.hd) IN Key(hd) \in DOMAIN cons' /\ cons'[Key(hd)] = [time |-> hd.time, root |-> hd.root, next |-> hd.next]
+                                          /\ Key(hd) \in DOMAIN meta' /\ meta'[Key(hd)] = now)
+     /\ Report(k, "C07.LatestMonotone", ln(k).ev = "Update" => latest' >= latest)
      /\ Report(k, "C07.RejectChangesNothing", ln(k).res # "ok" => (ln(k).dg.pre = ln(k).dg.post /\ UNCHANGED <<cons, meta, latest>>))
      /\ Report(k, "C07.ExpiredAcceptsNothing", (ln(k).ev = "Update" /\ ~Active) => ln(k).res # "ok")
 C_Step(k) ==
   CASE ln(k).ev = "Update" -> UpdateEff(Hd(ln(k).args.hd)) /\ (ln(k).res = "ok") = Accept(Hd(ln(k).args.hd))
     [] ln(k).ev = "Tick" -> TickEff(ln(k).args.d)
+    [] ln(k).ev = "Upgrade" -> UpgradeEff(ln(k).args.rev, ln(k).args.h, VSet(ln(k).args.next), ln(k).args.root) /\ ln(k).res = "ok"
     [] OTHER -> FALSE
 C_Gate(k) == \A e \in SetOf(ln(k).verify) : (e[2] = "pass") = VerifyOK(e[1])'
 Conform(k) == /\ IsStep(k) => (C_Step(k) \/ PrintT(<<"DRIFT", k, ln(k).ev>>))
